@@ -17,7 +17,34 @@
  *                 between (write + close, reply after a half-close, reset) reaches the loop as ONE readiness report
  *   waiteof k     client k waits (bounded) for the end of stream from the server (after a halfclose trigger)
  *   creset k      client k closes with SO_LINGER 0: a reset (bytes in flight may be dropped; logged "creset k")
+ *   cfg ... cbs=<letters|->   which optional callbacks of the handle are installed (default all = cmlraw):
+ *                 c cb_conn, m cb_msg, l cb_close, r cb_release, a cb_add_ctx, w cb_wake.  Where a callback is
+ *                 missing the log says what the harness can still see: "conn0 id k" / "addctx0 id" = the
+ *                 registration of an accepted / handed-over context succeeded and there is no callback to
+ *                 announce it; reads of on_read's default loop are logged by the shim; no "close" / "release" /
+ *                 "wake" lines
+ *   cfg ... alloc=<user|default|pool>   user: set_alloc_free(NULL, cb_alloc, cb_free) (default of the harness);
+ *                 default: the library's own allocator is kept (malloc / free interposed: "alloc id" at the
+ *                 first muggle_evloop_add_ctx, "free id" at free); pool: set_alloc_free(&pool_object, ..): the
+ *                 pool argument of every cb_alloc / cb_free call must be that object ("badpool .." otherwise;
+ *                 with user the argument must be NULL)
+ *   cfg ... onwake=<n>:<k>[,<n>:<k>..]   (in the cfg / vs line, so that shrinking a case cannot lose it)
+ *                 the user's cb_wake, on its n-th invocation, hands context k over itself
+ *                 (muggle_socket_evloop_add_ctx from inside the wake callback: on_wake has drained the
+ *                 queue and released the mutex, the back-end's wake-up handling is not over yet)
+ *   waithand k    wait (bounded) until connection k exists (its hand-over from cb_wake has started)
+ *   quiet         wait (bounded) until the loop thread sits in its back-end's wait with nothing ready
  *   pipe writers=<W> per=<K> seed=<s> rfrag=<0..2> wfrag=<0|1> psize=<bytes|0>
+ *
+ * Scheduled scenario (harness/vsched: one thread runs at a time, the schedule is part of the case):
+ *   vs be=<..> hints=<n> seed=<s> rbuf=<n> nh=<1..6> bytes=<n> gate=<0|1> budget=<steps> [onwake=<n>:<k>,..]
+ *   sched <spec>                 see harness/vsched/vsched.h ("rand <seed> <stick%> 0 0" | "list - t0 t1 ..")
+ * T0 creates the loop and the handle, starts T1 (muggle_evloop_run) and T2.. (one hander each), hands
+ * context 0 over and sends <bytes> bytes to it; hander j hands context j over and sends <bytes> bytes
+ * (gate=1: only after T0's hand-over has returned).  When all handers are done T0 waits until a wait of
+ * the loop thread has found nothing ready, logs "await k recv sent" for every connection, requests the
+ * exit and waits for run() to return.  The log is the same callback log as in the other scenarios; the
+ * scheduler's own E / P / X lines precede it and are ignored by monitor and acceptor.
  */
 #define _GNU_SOURCE
 #include "vdrv.h"
@@ -30,6 +57,9 @@
 #include <time.h>
 #include <unistd.h>
 #include <sys/socket.h>
+#include <sys/ioctl.h>
+#include <poll.h>
+#include <linux/sockios.h>
 #include <sys/un.h>
 #include <netinet/in.h>
 #include <netinet/tcp.h>
@@ -40,6 +70,7 @@
 #include "muggle/c/net/socket_evloop_handle.h"
 #include "muggle/c/net/socket_evloop_pipe.h"
 #include "muggle/c/event/event_loop.h"
+#include "vsched/vsched.h"
 
 #define MAXCONN 96
 #define MAXW 8
@@ -49,7 +80,9 @@
 
 enum { A_RETAIN = 1, A_SHUT, A_EXIT, A_HANDEXIT, A_STALL, A_HALFCLOSE, A_SHUTEXIT };
 enum { S_CONN = 1, S_HAND, S_SEND, S_CCLOSE, S_WREL, S_WSHUT, S_XEXIT, S_SYNC, S_SLEEP, S_PREHAND, S_BURST, S_BURSTMT, S_AWAIT,
-	S_UNSTALL, S_WAITSTALL, S_WAITEOF, S_CRESET };
+	S_UNSTALL, S_WAITSTALL, S_WAITEOF, S_CRESET, S_WAITHAND, S_QUIET };
+#define MAXONWAKE 16
+struct onwake { int nth; int conn; int fired; };
 
 struct trig { int conn; long thr; int act; int arg; int fired; };
 struct step { int op; int a; long n; int nch; int ch[MAXCHUNK]; };
@@ -62,6 +95,17 @@ static struct trig c_trig[MAXTRIG]; static int c_ntrig;
 static struct step c_step[MAXSTEP]; static int c_nstep;
 static int c_is_pipe, p_writers, p_per, p_rfrag, p_wfrag, p_psize;
 static int g_caseno, c_ignore;
+static struct onwake c_onwake[MAXONWAKE]; static int c_nonwake;
+static int c_is_vs, v_nh, v_bytes, v_gate;
+static long v_budget;
+static char v_sched[16384];
+static int g_wakes;                           /* invocations of the user's cb_wake (loop thread) */
+static char c_cbs[16];                        /* installed callbacks */
+#define HAS(ch) (strchr(c_cbs, (ch)) != NULL)
+enum { AL_USER = 0, AL_DEFAULT, AL_POOL };
+static int c_alloc;
+static int g_poolobj;                         /* its address is the mempool argument in alloc=pool */
+static void *g_pool_expect;
 
 /* ---- run state ---- */
 static muggle_event_loop_t *g_evloop;
@@ -100,6 +144,63 @@ static unsigned long long srv_rnd(void)
 }
 static void msleep_(int ms) { struct timespec ts = { ms / 1000, (ms % 1000) * 1000000L }; nanosleep(&ts, NULL); }
 static double now_s(void) { struct timespec ts; clock_gettime(CLOCK_MONOTONIC, &ts); return ts.tv_sec + ts.tv_nsec * 1e-9; }
+
+/* ---- synchronisation of the script with the loop thread ----
+ * No verdict depends on elapsed time.  Every wait below waits for a STATE: the thing waited for has
+ * happened, or the loop thread is quiet (it sits in its back-end's wait, nothing in the set it waits on is
+ * ready - asked again from here without consuming anything, harness/c15_shim.c sh_loop_quiet - and no
+ * TCP segment sent by a client is still unacknowledged), so the thing will never happen, or run() has
+ * returned.  BIG_WAIT only bounds a wait that none of these ends (a machine too loaded to make progress,
+ * or a harness defect): the case is then marked "INCONCLUSIVE <what>" and the monitor reports nothing. */
+#define BIG_WAIT 45.0
+static int cl_tcp[MAXCONN];
+static int g_inconclusive;
+static int tcp_inflight(void)
+{
+	for (int k = 0; k < MAXCONN; k++)
+		if (cl_ok[k] && cl_tcp[k] && !cl_closed[k]) {
+			int q = 0;
+			if (ioctl(cl_fd[k], SIOCOUTQ, &q) != 0 || q <= 0) continue;
+			/* a connection that was reset or hung up delivers nothing any more */
+			struct pollfd p; p.fd = cl_fd[k]; p.events = 0; p.revents = 0;
+			if (poll(&p, 1, 0) > 0 && (p.revents & (POLLERR | POLLHUP | POLLNVAL))) continue;
+			return 1;
+		}
+	return 0;
+}
+static int loop_quiet(void)
+{
+	/* twice, a moment apart, within the same wait of the loop thread */
+	if (!sh_loop_quiet() || tcp_inflight()) return 0;
+	long e = sh_wait_epoch();
+	msleep_(2);
+	return sh_loop_quiet() && !tcp_inflight() && sh_wait_epoch() == e;
+}
+static void inconclusive(const char *what)
+{
+	__atomic_store_n(&g_inconclusive, 1, __ATOMIC_SEQ_CST);
+	sh_logf("INCONCLUSIVE %s", what);
+}
+/* wait until *flag is non-zero; returns 1 if it is, 0 if the loop went quiet / run() returned first */
+static int wait_flag(int *flag, const char *what)
+{
+	double t0 = now_s();
+	for (;;) {
+		if (__atomic_load_n(flag, __ATOMIC_SEQ_CST)) return 1;
+		if (__atomic_load_n(&g_returned, __ATOMIC_SEQ_CST)) return __atomic_load_n(flag, __ATOMIC_SEQ_CST) != 0;
+		if (loop_quiet()) return __atomic_load_n(flag, __ATOMIC_SEQ_CST) != 0;
+		if (now_s() - t0 > BIG_WAIT) { inconclusive(what); return 0; }
+		msleep_(1);
+	}
+}
+static void wait_quiet(const char *what)
+{
+	double t0 = now_s();
+	while (!loop_quiet() && !__atomic_load_n(&g_returned, __ATOMIC_SEQ_CST)) {
+		if (now_s() - t0 > BIG_WAIT) { inconclusive(what); return; }
+		msleep_(1);
+	}
+}
 
 /* ---- workers ---- */
 struct worker {
@@ -141,10 +242,21 @@ static void *worker_main(void *arg)
 		int cmd = W->cmd[0];
 		memmove(W->cmd, W->cmd + 1, sizeof(int) * (--W->ncmd));
 		if (cmd == W_REL || cmd == W_SHUT) {
-			if (W->nheld == 0) {           /* the retain trigger may not have fired yet */
-				struct timespec ts; clock_gettime(CLOCK_REALTIME, &ts);
-				ts.tv_nsec += 60000000L; if (ts.tv_nsec >= 1000000000L) { ts.tv_sec++; ts.tv_nsec -= 1000000000L; }
-				while (W->nheld == 0) if (pthread_cond_timedwait(&W->cv, &W->mtx, &ts) != 0) break;
+			if (W->nheld == 0) {
+				/* the retain trigger may not have fired yet: wait until it has, or until the loop thread
+				 * is quiet (every byte sent was consumed: it never will) or has returned */
+				double t0 = now_s();
+				while (W->nheld == 0) {
+					struct timespec ts; clock_gettime(CLOCK_REALTIME, &ts);
+					ts.tv_nsec += 3000000L; if (ts.tv_nsec >= 1000000000L) { ts.tv_sec++; ts.tv_nsec -= 1000000000L; }
+					pthread_cond_timedwait(&W->cv, &W->mtx, &ts);
+					if (W->nheld > 0) break;
+					pthread_mutex_unlock(&W->mtx);
+					int stop = __atomic_load_n(&g_returned, __ATOMIC_SEQ_CST) || loop_quiet();
+					if (!stop && now_s() - t0 > BIG_WAIT) { inconclusive("worker waiting for a retain"); stop = 1; }
+					pthread_mutex_lock(&W->mtx);
+					if (stop) break;
+				}
 			}
 			if (W->nheld > 0) {
 				muggle_socket_context_t *ctx = W->held[0];
@@ -220,7 +332,9 @@ static void hand_ctx(muggle_socket_context_t *ctx, int id)
 {
 	pthread_mutex_lock(&g_prod);
 	sh_logf("hand %d", id);
+	sh_sig_tag = id;                   /* the wake-up write inside is logged as "sigw <id>" */
 	muggle_socket_evloop_add_ctx(g_evloop, ctx);
+	sh_sig_tag = -1;
 	sh_logf("handed %d", id);
 	pthread_mutex_unlock(&g_prod);
 }
@@ -228,7 +342,7 @@ static muggle_socket_context_t *make_pair(int k, int *id)
 {
 	int sp[2];
 	if (socketpair(AF_UNIX, SOCK_STREAM, 0, sp) != 0) { sh_logf("cfail %d", k); return NULL; }
-	cl_fd[k] = sp[0]; cl_ok[k] = 1;
+	cl_fd[k] = sp[0]; __atomic_store_n(&cl_ok[k], 1, __ATOMIC_SEQ_CST);
 	return make_ctx(sp[1], MUGGLE_SOCKET_CTX_TYPE_TCP_CLIENT, k, id);
 }
 static void hand_pair(int k)
@@ -256,10 +370,8 @@ static void do_burst(struct step *s, int mt)
 	/* if a stall trigger is configured, wait (bounded) until the loop thread sits in it */
 	int has_stall = 0;
 	for (int i = 0; i < c_ntrig; i++) if (c_trig[i].act == A_STALL && !c_trig[i].fired) has_stall = 1;
-	if (has_stall || __atomic_load_n(&g_stalled, __ATOMIC_SEQ_CST)) {
-		double t0 = now_s();
-		while (!__atomic_load_n(&g_stalled, __ATOMIC_SEQ_CST) && now_s() - t0 < 0.3) msleep_(1);
-	}
+	if (has_stall || __atomic_load_n(&g_stalled, __ATOMIC_SEQ_CST))
+		wait_flag(&g_stalled, "burst waiting for the stall trigger");
 	if (mt) {
 		for (int i = 0; i < n; i++) pthread_create(&th[i], NULL, burst_thread, &ba[i]);
 		for (int i = 0; i < n; i++) pthread_join(th[i], NULL);
@@ -270,9 +382,15 @@ static void do_burst(struct step *s, int mt)
 }
 static void do_await(int k)
 {
+	/* until everything sent on k was read by the server side, or the loop thread is quiet (then what is
+	 * missing will never be read: the line below shows it and the monitor judges), or run() returned */
 	double t0 = now_s();
-	while (cl_ok[k] && __atomic_load_n(&sv_recv[k], __ATOMIC_SEQ_CST) < cl_sent[k] && now_s() - t0 < 2.0 &&
-		!__atomic_load_n(&g_returned, __ATOMIC_SEQ_CST)) msleep_(1);
+	while (cl_ok[k] && __atomic_load_n(&sv_recv[k], __ATOMIC_SEQ_CST) < cl_sent[k] &&
+		!__atomic_load_n(&g_returned, __ATOMIC_SEQ_CST)) {
+		if (loop_quiet()) break;
+		if (now_s() - t0 > BIG_WAIT) { inconclusive("await"); break; }
+		msleep_(1);
+	}
 	sh_logf("await %d %ld %ld", k, __atomic_load_n(&sv_recv[k], __ATOMIC_SEQ_CST), cl_sent[k]);
 }
 
@@ -311,7 +429,10 @@ static int run_triggers(muggle_event_loop_t *evloop, muggle_socket_context_t *ct
 			sh_logf("stalled");
 			__atomic_store_n(&g_stalled, 1, __ATOMIC_SEQ_CST);
 			double t0 = now_s();
-			while (!__atomic_load_n(&g_unstall, __ATOMIC_SEQ_CST) && now_s() - t0 < 1.0) msleep_(1);
+			while (!__atomic_load_n(&g_unstall, __ATOMIC_SEQ_CST)) {
+				if (now_s() - t0 > BIG_WAIT) { inconclusive("stall trigger never released"); break; }
+				msleep_(1);
+			}
 			__atomic_store_n(&g_stalled, 0, __ATOMIC_SEQ_CST);
 			sh_logf("unstall");
 		} break;
@@ -347,7 +468,7 @@ static int run_triggers(muggle_event_loop_t *evloop, muggle_socket_context_t *ct
 /* ---- handle callbacks ---- */
 static muggle_socket_context_t *cb_alloc(void *pool)
 {
-	(void)pool;
+	if (pool != g_pool_expect) sh_logf("badpool alloc");
 	int k = ++g_alloc_calls;
 	for (int i = 0; i < c_nalloc_fault; i++)
 		if (c_alloc_fault[i] == k) {
@@ -367,7 +488,7 @@ static muggle_socket_context_t *cb_alloc(void *pool)
 }
 static void cb_free(void *pool, muggle_socket_context_t *ctx)
 {
-	(void)pool;
+	if (pool != g_pool_expect) sh_logf("badpool free %d", sh_ctx_id(ctx));
 	sh_lock();
 	int id = sh_ctx_id(ctx);
 	sh_logf_locked("free %d", id);
@@ -421,6 +542,17 @@ static void cb_wake(muggle_event_loop_t *evloop)
 {
 	(void)evloop;
 	sh_logf("wake");           /* on_wake is over (called after the queue loop, mutex released) */
+	int n = ++g_wakes;
+	/* an application whose wake callback serves its own "please add this connection" requests:
+	 * the hand-over happens inside the back-end's wake-up handling, after the queue was drained */
+	for (int i = 0; i < c_nonwake; i++) {
+		struct onwake *o = &c_onwake[i];
+		if (o->fired || o->nth != n) continue;
+		o->fired = 1;
+		if (o->conn >= 0 && o->conn < MAXCONN && !__atomic_load_n(&cl_ok[o->conn], __ATOMIC_SEQ_CST) &&
+			!__atomic_load_n(&g_exit_req, __ATOMIC_SEQ_CST))
+			hand_pair(o->conn);
+	}
 }
 static void cb_msg(muggle_event_loop_t *evloop, muggle_socket_context_t *ctx)
 {
@@ -465,13 +597,58 @@ void drv_on_reg(int id, int ret)
 		if (id == g_listener_id) __atomic_store_n(&g_listener_state, 2, __ATOMIC_SEQ_CST);
 		if (id >= 0 && ctx_conn[id] == -2) __atomic_fetch_add(&g_acc_done, 1, __ATOMIC_SEQ_CST);
 		if (id >= 0 && ctx_conn[id] >= 0) __atomic_store_n(&sv_closed[ctx_conn[id]], 1, __ATOMIC_SEQ_CST);
+		return;
 	}
+	if (id < 0) return;
+	if (ctx_conn[id] == -2 && !HAS('c')) {
+		/* accepted and registered; no cb_conn to announce it: the harness binds it to its connection here */
+		int k = ctx_ptr[id] ? peer_conn(ctx_ptr[id]->base.fd) : -1;
+		ctx_conn[id] = k;
+		if (k >= 0) { sv_ctx[k] = id; sv_announced[k] = 1; }
+		sh_logf("conn0 %d %d", id, k);
+		__atomic_fetch_add(&g_acc_done, 1, __ATOMIC_SEQ_CST);
+	} else if (ctx_conn[id] != -2 && !HAS('a')) {
+		/* handed over and registered; no cb_add_ctx */
+		sh_logf("addctx0 %d", id);
+		if (ctx_conn[id] >= 0) sv_announced[ctx_conn[id]] = 1;
+		if (id == g_listener_id) __atomic_store_n(&g_listener_state, 1, __ATOMIC_SEQ_CST);
+	}
+}
+void drv_on_alloc(int id, void *ctx)
+{
+	if (id >= 0 && id < SH_MAXCTX) { ctx_conn[id] = -2; ctx_ptr[id] = (muggle_socket_context_t *)ctx; }
+}
+void drv_on_read(int id, long n)
+{
+	if (id >= 0 && id < SH_MAXCTX && ctx_conn[id] >= 0) __atomic_fetch_add(&sv_recv[ctx_conn[id]], n, __ATOMIC_SEQ_CST);
+}
+
+/* the handle as the case configures it: only the listed callbacks, the chosen allocator */
+static void setup_handle(void)
+{
+	muggle_socket_evloop_handle_init(&g_handle);
+	if (HAS('c')) muggle_socket_evloop_handle_set_cb_conn(&g_handle, cb_conn);
+	if (HAS('m')) muggle_socket_evloop_handle_set_cb_msg(&g_handle, cb_msg);
+	if (HAS('l')) muggle_socket_evloop_handle_set_cb_close(&g_handle, cb_close);
+	if (HAS('r')) muggle_socket_evloop_handle_set_cb_release(&g_handle, cb_release);
+	if (HAS('a')) muggle_socket_evloop_handle_set_cb_add_ctx(&g_handle, cb_add_ctx);
+	if (HAS('w')) muggle_socket_evloop_handle_set_cb_wake(&g_handle, cb_wake);
+	g_pool_expect = NULL;
+	if (c_alloc == AL_USER) muggle_socket_evloop_handle_set_alloc_free(&g_handle, NULL, cb_alloc, cb_free);
+	else if (c_alloc == AL_POOL) {
+		g_pool_expect = &g_poolobj;
+		muggle_socket_evloop_handle_set_alloc_free(&g_handle, &g_poolobj, cb_alloc, cb_free);
+	} else sh_default_alloc(1);            /* handle_init's defaults stay */
+	if (!HAS('m')) sh_log_reads(1);
+	muggle_socket_evloop_handle_attach(&g_handle, g_evloop);
 }
 
 static void *loop_main(void *arg)
 {
 	(void)arg;
+	sh_loop_thread(1);                 /* its poll / select / epoll_wait calls are logged ("idle") */
 	muggle_evloop_run(g_evloop);
+	sh_loop_thread(0);
 	sh_logf("returned");
 	__atomic_store_n(&g_returned, 1, __ATOMIC_SEQ_CST);
 	return NULL;
@@ -528,7 +705,7 @@ static void do_conn(int k)
 		in.sin_port = htons((unsigned short)g_listen_port);
 		if (connect(fd, (struct sockaddr *)&in, sizeof(in)) != 0) { close(fd); cl_port[k] = 0; sh_logf("cfail %d", k); return; }
 	}
-	cl_fd[k] = fd; cl_ok[k] = 1;
+	cl_fd[k] = fd; cl_tcp[k] = !c_unix; cl_ok[k] = 1;
 	g_connects++;
 	sh_logf("cconn %d", k);
 }
@@ -562,12 +739,17 @@ static void do_send(struct step *s)
 }
 static void do_sync(void)
 {
+	/* until the server side has seen everything the clients did so far (connections accepted or refused,
+	 * bytes read, closes dispatched), or the loop thread is quiet (the rest will never be seen: e.g. a
+	 * backlog left behind by a failed accept with the edge-triggered back-end), or run() returned */
 	double t0 = now_s();
-	while (now_s() - t0 < 0.12) {
+	for (;;) {
 		int pending = 0;
 		if (__atomic_load_n(&g_returned, __ATOMIC_SEQ_CST)) break;
+		if (__atomic_load_n(&g_stalled, __ATOMIC_SEQ_CST) && !__atomic_load_n(&g_unstall, __ATOMIC_SEQ_CST)) break;
+		if (now_s() - t0 > BIG_WAIT) { inconclusive("sync"); break; }
 		if (__atomic_load_n(&g_listener_state, __ATOMIC_SEQ_CST) == 1 &&
-			__atomic_load_n(&g_acc_done, __ATOMIC_SEQ_CST) < g_connects && now_s() - t0 < 0.04) pending = 1;
+			__atomic_load_n(&g_acc_done, __ATOMIC_SEQ_CST) < g_connects) pending = 1;
 		for (int k = 0; k < MAXCONN && !pending; k++) {
 			if (!cl_ok[k] || sv_ctx[k] < 0) continue;
 			if (__atomic_load_n(&sv_closed[k], __ATOMIC_SEQ_CST)) continue;
@@ -575,6 +757,7 @@ static void do_sync(void)
 			if (__atomic_load_n(&sv_recv[k], __ATOMIC_SEQ_CST) < cl_sent[k]) { pending = 1; break; }
 		}
 		if (!pending) break;
+		if (loop_quiet()) break;
 		struct timespec ts = { 0, 200000L }; nanosleep(&ts, NULL);
 	}
 }
@@ -585,28 +768,22 @@ static void run_socket_case(void)
 	long heap0 = sh_heap_live();
 	int fds0 = sh_open_fds();
 	memset(cl_fd, -1, sizeof(cl_fd)); memset(cl_ok, 0, sizeof(cl_ok)); memset(cl_closed, 0, sizeof(cl_closed));
+	memset(cl_tcp, 0, sizeof(cl_tcp)); g_inconclusive = 0;
 	memset(cl_port, 0, sizeof(cl_port)); memset(cl_sent, 0, sizeof(cl_sent)); memset(sv_recv, 0, sizeof(sv_recv));
 	memset(sv_closed, 0, sizeof(sv_closed)); memset(sv_announced, 0, sizeof(sv_announced));
 	for (int i = 0; i < MAXCONN; i++) sv_ctx[i] = -1;
 	for (int i = 0; i < SH_MAXCTX; i++) ctx_conn[i] = -1;
 	g_alloc_calls = 0; g_exit_req = 0; g_returned = 0; g_acc_done = 0; g_connects = 0;
 	g_listener_state = 0; g_listener_id = -1; g_srv_rng = c_seed ^ 0x5151515151ULL;
-	g_stalled = 0; g_unstall = 0;
+	g_stalled = 0; g_unstall = 0; g_wakes = 0;
 
 	muggle_event_loop_init_args_t args;
 	memset(&args, 0, sizeof(args));
 	args.evloop_type = c_be; args.hints_max_fd = c_hints; args.use_mem_pool = c_pool;
 	g_evloop = muggle_evloop_new(&args);
 	if (!g_evloop) { printf("SETUPFAIL evloop\n"); return; }
-	muggle_socket_evloop_handle_init(&g_handle);
-	muggle_socket_evloop_handle_set_cb_conn(&g_handle, cb_conn);
-	muggle_socket_evloop_handle_set_cb_msg(&g_handle, cb_msg);
-	muggle_socket_evloop_handle_set_cb_close(&g_handle, cb_close);
-	muggle_socket_evloop_handle_set_cb_release(&g_handle, cb_release);
-	muggle_socket_evloop_handle_set_cb_add_ctx(&g_handle, cb_add_ctx);
-	muggle_socket_evloop_handle_set_cb_wake(&g_handle, cb_wake);
-	muggle_socket_evloop_handle_set_alloc_free(&g_handle, NULL, cb_alloc, cb_free);
-	muggle_socket_evloop_handle_attach(&g_handle, g_evloop);
+	sh_signal_fd(muggle_ev_signal_rfd(g_evloop->ev_signal));
+	setup_handle();
 
 	g_listen_fd = make_listener();
 	if (g_listen_fd < 0) { printf("SETUPFAIL listen\n"); return; }
@@ -625,17 +802,25 @@ static void run_socket_case(void)
 					if (k >= 0 && k < MAXCONN && !cl_ok[k]) hand_pair(k);
 				}
 	}
-	pthread_t lth;
-	pthread_create(&lth, NULL, loop_main, NULL);
+	/* the workers exist BEFORE the loop thread: a retain trigger with threshold 0 fires inside cb_add_ctx of a
+	 * context handed over before the loop started, i.e. as soon as the loop thread runs, and gives the reference
+	 * to a worker (initialising the workers afterwards wiped such a reference: the context was then never released -
+	 * a timing-dependent false "N allocated, N-1 freed") */
 	for (int w = 0; w < c_workers; w++) {
 		memset(&g_w[w], 0, sizeof(g_w[w]));
 		pthread_mutex_init(&g_w[w].mtx, NULL); pthread_cond_init(&g_w[w].cv, NULL);
 		pthread_create(&g_w[w].th, NULL, worker_main, (void *)(intptr_t)w);
 	}
+	pthread_t lth;
+	pthread_create(&lth, NULL, loop_main, NULL);
 	if (!prehand) hand_ctx(lctx, g_listener_id);
 	{
+		/* the listener's hand-over has been registered (or refused) by the loop thread */
 		double t0 = now_s();
-		while (__atomic_load_n(&g_listener_state, __ATOMIC_SEQ_CST) == 0 && now_s() - t0 < 2.0) msleep_(1);
+		while (__atomic_load_n(&g_listener_state, __ATOMIC_SEQ_CST) == 0 && !__atomic_load_n(&g_returned, __ATOMIC_SEQ_CST)) {
+			if (now_s() - t0 > BIG_WAIT) { inconclusive("listener registration"); break; }
+			msleep_(1);
+		}
 	}
 
 	for (int i = 0; i < c_nstep; i++) {
@@ -658,15 +843,27 @@ static void run_socket_case(void)
 		case S_BURSTMT: if (!__atomic_load_n(&g_exit_req, __ATOMIC_SEQ_CST)) do_burst(s, 1); break;
 		case S_AWAIT: do_await(s->a); break;
 		case S_UNSTALL: __atomic_store_n(&g_unstall, 1, __ATOMIC_SEQ_CST); break;
-		case S_WAITSTALL: {
-			double t0 = now_s();
-			while (!__atomic_load_n(&g_stalled, __ATOMIC_SEQ_CST) && now_s() - t0 < 0.3) msleep_(1);
-		} break;
+		case S_WAITSTALL: wait_flag(&g_stalled, "waitstall"); break;
 		case S_WAITEOF:
 			if (cl_ok[s->a] && !cl_closed[s->a]) {
-				struct timeval tv = { 0, 500000 }; char b[64]; ssize_t r;
+				/* until the server's end of stream arrives, or the loop thread is quiet with everything
+				 * delivered (the half-close trigger did not fire and never will) or has returned */
+				struct timeval tv = { 0, 5000 }; char b[64]; ssize_t r;
+				double t0 = now_s();
 				setsockopt(cl_fd[s->a], SOL_SOCKET, SO_RCVTIMEO, &tv, sizeof(tv));
-				while ((r = recv(cl_fd[s->a], b, sizeof(b), 0)) > 0) {}
+				for (;;) {
+					r = recv(cl_fd[s->a], b, sizeof(b), 0);
+					if (r > 0) continue;
+					if (r == 0) break;
+					if (errno != EAGAIN && errno != EWOULDBLOCK && errno != EINTR) break;
+					if (__atomic_load_n(&g_returned, __ATOMIC_SEQ_CST) || loop_quiet()) {
+						/* one more look: the end of stream may have arrived just before */
+						r = recv(cl_fd[s->a], b, sizeof(b), MSG_DONTWAIT);
+						if (r > 0) continue;
+						break;
+					}
+					if (now_s() - t0 > BIG_WAIT) { inconclusive("waiteof"); break; }
+				}
 			}
 			break;
 		case S_CRESET:
@@ -677,21 +874,47 @@ static void run_socket_case(void)
 				close(cl_fd[s->a]); cl_closed[s->a] = 1;
 			}
 			break;
+		case S_WAITHAND: wait_flag(&cl_ok[s->a], "waithand"); break;
+		case S_QUIET: wait_quiet("quiet"); sh_logf("quiet"); break;
 		case S_PREHAND: break;
 		}
 	}
-	/* no exit in the script: let the server consume what is in flight (keeps replays of shrunk
-	 * cases reproducible), then exit from this thread */
-	if (!__atomic_load_n(&g_exit_req, __ATOMIC_SEQ_CST)) do_sync();
+	/* no exit in the script: let the server consume what is in flight and wait (bounded) until the
+	 * loop thread sits in its back-end's wait with nothing ready (keeps replays of shrunk cases
+	 * reproducible: what the loop owes is judged at a stable point), then exit from this thread */
+	__atomic_store_n(&g_unstall, 1, __ATOMIC_SEQ_CST);      /* a stalled loop thread is released at the latest here */
+	if (!__atomic_load_n(&g_exit_req, __ATOMIC_SEQ_CST)) {
+		do_sync();
+		wait_quiet("end of script");
+	}
 	if (!__atomic_exchange_n(&g_exit_req, 1, __ATOMIC_SEQ_CST)) { sh_logf("xexit"); muggle_evloop_exit(g_evloop); }
 	{
-		struct timespec ts; clock_gettime(CLOCK_REALTIME, &ts); ts.tv_sec += 4;
+		/* muggle_evloop_run has to return after the exit request: that IS a time-out (a loop that never
+		 * returns cannot be told from a slow one), so it is long */
+		struct timespec ts; clock_gettime(CLOCK_REALTIME, &ts); ts.tv_sec += 90;
 		if (pthread_timedjoin_np(lth, NULL, &ts) != 0) {
 			sh_dump(stdout);
 			printf("HANG loop thread did not return\nEND\n");
 			fflush(stdout);
-			_exit(3);
+			_exit(77);      /* the batch runner restarts the driver for the remaining cases */
 		}
+	}
+	/* a hand-over that lost the race with the end of run() (enqueued after on_exit had drained the queue)
+	 * is outside the property: the context is still queued and still the caller's; take it back */
+	int late = 0;
+	while (muggle_queue_size(g_handle.ctx_queue) > 0) {
+		muggle_queue_node_t *node = muggle_queue_front(g_handle.ctx_queue);
+		muggle_socket_context_t *ctx = (muggle_socket_context_t *)node->data;
+		int id = sh_ctx_id(ctx);
+		sh_logf("late %d", id);
+		muggle_queue_dequeue(g_handle.ctx_queue, NULL, NULL);
+		muggle_socket_ctx_close(ctx);
+		sh_lock();
+		sh_logf_locked("latefree %d", id);
+		sh_ctx_late_locked(id);
+		sh_unlock();
+		free(ctx);
+		late++;
 	}
 	for (int w = 0; w < c_workers; w++) {
 		worker_cmd(w, W_RELALL);
@@ -700,16 +923,110 @@ static void run_socket_case(void)
 		pthread_mutex_destroy(&g_w[w].mtx); pthread_cond_destroy(&g_w[w].cv);
 	}
 	for (int k = 0; k < MAXCONN; k++) if (cl_ok[k] && !cl_closed[k]) { close(cl_fd[k]); cl_closed[k] = 1; }
+	sh_signal_fd(-1);
 	muggle_socket_evloop_handle_destroy(&g_handle);
 	muggle_evloop_delete(g_evloop);
 	g_evloop = NULL;
 	sh_dump(stdout);
-	printf("F ctx alloc=%d freed=%d\n", sh_ctx_allocs(), sh_ctx_frees());
+	printf("F ctx alloc=%d freed=%d late=%d\n", sh_ctx_allocs(), sh_ctx_frees(), late);
+	printf("F heap_delta=%ld fd_delta=%d badclose=%d\n", sh_heap_live() - heap0, sh_open_fds() - fds0, sh_badclose());
+}
+
+/* ---- scheduled scenario (deterministic scheduler) ---- */
+static int v_done, v_go;
+static void v_send(int k)
+{
+	if (v_bytes <= 0 || !cl_ok[k]) return;
+	struct step s;
+	memset(&s, 0, sizeof(s));
+	s.op = S_SEND; s.a = k; s.n = v_bytes;
+	do_send(&s);
+}
+static void v_loop(void *arg)
+{
+	(void)arg;
+	loop_main(NULL);
+}
+static void v_hander(void *arg)
+{
+	int j = (int)(intptr_t)arg;
+	while (v_gate && !v_go) vs_yield_point("gate");
+	vs_yield_point("op");
+	hand_pair(j);
+	v_send(j);
+	v_done++;
+}
+static void v_main(void *arg)
+{
+	(void)arg;
+	muggle_event_loop_init_args_t args;
+	memset(&args, 0, sizeof(args));
+	args.evloop_type = c_be; args.hints_max_fd = c_hints; args.use_mem_pool = c_pool;
+	g_evloop = muggle_evloop_new(&args);
+	if (!g_evloop) { sh_logf("SETUPFAIL evloop"); return; }
+	sh_signal_fd(muggle_ev_signal_rfd(g_evloop->ev_signal));
+	setup_handle();
+	vs_name(&g_handle.mtx->mtx, "hmtx");
+	vs_name(&g_prod, "prod");
+	vs_spawn(v_loop, NULL);
+	for (int j = 1; j <= v_nh; j++) vs_spawn(v_hander, (void *)(intptr_t)j);
+	vs_yield_point("op");
+	hand_pair(0);
+	v_go = 1;
+	v_send(0);
+	while (v_done < v_nh) vs_yield_point("wait");
+	/* every hand-over has returned and every byte is written: wait until a wait of the loop thread
+	 * that STARTED after this point has found nothing ready */
+	long c0 = sh_idle_count();
+	while (sh_idle_count() == c0 && !g_returned) vs_yield_point("wait");
+	for (int k = 0; k < MAXCONN; k++)
+		if (cl_ok[k]) sh_logf("await %d %ld %ld", k, sv_recv[k], cl_sent[k]);
+	g_exit_req = 1;
+	sh_logf("xexit");
+	muggle_evloop_exit(g_evloop);
+	while (!g_returned) vs_yield_point("wait");
+}
+static void run_vs_case(void)
+{
+	vs_reset();
+	vs_set_budget(v_budget);
+	vs_set_schedule(v_sched);
+	long heap0 = sh_heap_live();
+	int fds0 = sh_open_fds();
+	memset(cl_fd, -1, sizeof(cl_fd)); memset(cl_ok, 0, sizeof(cl_ok)); memset(cl_closed, 0, sizeof(cl_closed));
+	memset(cl_tcp, 0, sizeof(cl_tcp)); g_inconclusive = 0;
+	memset(cl_port, 0, sizeof(cl_port)); memset(cl_sent, 0, sizeof(cl_sent)); memset(sv_recv, 0, sizeof(sv_recv));
+	memset(sv_closed, 0, sizeof(sv_closed)); memset(sv_announced, 0, sizeof(sv_announced));
+	for (int i = 0; i < MAXCONN; i++) sv_ctx[i] = -1;
+	for (int i = 0; i < SH_MAXCTX; i++) ctx_conn[i] = -1;
+	g_alloc_calls = 0; g_exit_req = 0; g_returned = 0; g_acc_done = 0; g_connects = 0;
+	g_listener_state = 0; g_listener_id = -1; g_srv_rng = c_seed ^ 0x5151515151ULL;
+	g_stalled = 0; g_unstall = 0; g_wakes = 0; v_done = 0; v_go = 0;
+	g_evloop = NULL;
+	vs_spawn(v_main, NULL);
+	int st = vs_run();
+	if (st != 0) {
+		/* DEADLOCK / LIVELOCK has been printed by the scheduler: the threads are parked for ever */
+		sh_dump(stdout);
+		printf("END\n");
+		fflush(stdout);
+		_exit(77);
+	}
+	for (int k = 0; k < MAXCONN; k++) if (cl_ok[k] && !cl_closed[k]) { close(cl_fd[k]); cl_closed[k] = 1; }
+	sh_signal_fd(-1);
+	if (g_evloop) {
+		muggle_socket_evloop_handle_destroy(&g_handle);
+		muggle_evloop_delete(g_evloop);
+		g_evloop = NULL;
+	}
+	sh_dump(stdout);
+	printf("F ctx alloc=%d freed=%d late=0\n", sh_ctx_allocs(), sh_ctx_frees());
 	printf("F heap_delta=%ld fd_delta=%d badclose=%d\n", sh_heap_live() - heap0, sh_open_fds() - fds0, sh_badclose());
 }
 
 /* ---- pipe scenario ---- */
 static muggle_socket_evloop_pipe_t g_pipe;
+static int p_writers_done;
 static void *pipe_writer(void *arg)
 {
 	int w = (int)(intptr_t)arg;
@@ -719,6 +1036,31 @@ static void *pipe_writer(void *arg)
 		bool ok = muggle_socket_evloop_pipe_write(&g_pipe, (void *)v);
 		if (!ok) sh_logf("pwfail %d %d", w, i);
 		if ((i & 3) == 0) sched_yield();
+	}
+	__atomic_fetch_add(&p_writers_done, 1, __ATOMIC_SEQ_CST);
+	return NULL;
+}
+/* A reader (or a writer) that never comes back from the library call is a hang of the code under test; it
+ * cannot be told from a slow one except by time, so the bound is long and counts only time without ANY
+ * progress (no call of the reader returning, no writer finishing). */
+static long p_reader_calls;
+static int p_case_over;
+static void *pipe_watchdog(void *arg)
+{
+	(void)arg;
+	long seen = -1; int seen_done = -1; double last = now_s();
+	while (!__atomic_load_n(&p_case_over, __ATOMIC_SEQ_CST)) {
+		long c = __atomic_load_n(&p_reader_calls, __ATOMIC_SEQ_CST);
+		int d = __atomic_load_n(&p_writers_done, __ATOMIC_SEQ_CST);
+		if (c != seen || d != seen_done) { seen = c; seen_done = d; last = now_s(); }
+		else if (now_s() - last > BIG_WAIT) {
+			sh_dump(stdout);
+			printf("HANG pipe: no call of muggle_socket_evloop_pipe_read returned and no writer finished for %d s "
+				"(%d of %d writers done)\nEND\n", (int)BIG_WAIT, d, p_writers);
+			fflush(stdout);
+			_exit(77);      /* the batch runner restarts the driver for the remaining cases */
+		}
+		msleep_(5);
 	}
 	return NULL;
 }
@@ -731,21 +1073,31 @@ static void run_pipe_case(void)
 	int wfd = muggle_socket_evloop_pipe_get_writer(&g_pipe)->base.fd;
 	if (p_psize > 0) muggle_socket_evloop_pipe_set_w_size(&g_pipe, p_psize);
 	sh_pipe_fds(rfd, wfd, c_seed, p_rfrag, p_wfrag);
-	pthread_t th[16];
+	pthread_t th[16], wd;
+	p_writers_done = 0; p_reader_calls = 0; p_case_over = 0;
+	pthread_create(&wd, NULL, pipe_watchdog, NULL);
 	for (int w = 0; w < p_writers; w++) pthread_create(&th[w], NULL, pipe_writer, (void *)(intptr_t)w);
 	long total = (long)p_writers * p_per, got = 0;
-	double t0 = now_s();
-	while (got < total && now_s() - t0 < 8.0) {
+	/* Read until every pointer written has been read.  Once all writers have finished, everything they wrote is
+	 * in the pipe: the reader then stops when the pipe stays empty (a run of NULL results far longer than the
+	 * injected EAGAIN / EINTR faults can produce) - pointers still missing are missing for good, which the
+	 * "pdone" line shows.  No time-out decides anything. */
+	int empty_run = 0;
+	while (got < total) {
 		void *p = muggle_socket_evloop_pipe_read(&g_pipe);
+		__atomic_fetch_add(&p_reader_calls, 1, __ATOMIC_SEQ_CST);
 		if (p) {
 			uintptr_t v = (uintptr_t)p;
 			sh_logf("pr %lld %lld", (long long)(v >> 32) - 1, (long long)(v & 0xffffffffu) - 1);
-			got++;
+			got++; empty_run = 0;
 		} else {
-			sched_yield();
+			if (__atomic_load_n(&p_writers_done, __ATOMIC_SEQ_CST) == p_writers) { if (++empty_run > 400) break; }
+			else sched_yield();
 		}
 	}
 	for (int w = 0; w < p_writers; w++) pthread_join(th[w], NULL);
+	__atomic_store_n(&p_case_over, 1, __ATOMIC_SEQ_CST);
+	pthread_join(wd, NULL);
 	sh_logf("pdone %ld", got);
 	sh_pipe_fds(-1, -1, 0, 0, 0);
 	muggle_socket_evloop_pipe_destroy(&g_pipe);
@@ -760,6 +1112,9 @@ static void case_begin(void)
 	sh_reset();
 	c_be = MUGGLE_EVLOOP_TYPE_EPOLL; c_unix = 0; c_hints = 64; c_pool = 0; c_rbuf = 64; c_workers = 2; c_seed = 1;
 	c_nalloc_fault = 0; c_ntrig = 0; c_nstep = 0; c_is_pipe = 0; c_ignore = 0;
+	strcpy(c_cbs, "cmlraw"); c_alloc = AL_USER;
+	c_nonwake = 0; c_is_vs = 0; v_nh = 1; v_bytes = 3; v_gate = 1; v_budget = 20000;
+	strcpy(v_sched, "rand 1 50 0 0");
 }
 static long kv(const char *line, const char *key, long dflt)
 {
@@ -775,7 +1130,39 @@ static void case_line(char *line)
 	if (sscanf(line, "%31s", op) != 1) return;
 	if (strcmp(op, "TRACE") == 0) { c_ignore = 1; return; }   /* model-side section: not for this driver */
 	if (c_ignore) return;
-	if (strcmp(op, "cfg") == 0) {
+	if (strcmp(op, "sched") == 0) { snprintf(v_sched, sizeof(v_sched), "%s", line + 6); return; }
+	if (strcmp(op, "cfg") == 0 || strcmp(op, "vs") == 0) {
+		const char *cb = strstr(line, " cbs=");
+		if (cb) {
+			int n = 0;
+			for (const char *q = cb + 5; *q && *q != ' ' && n < 15; q++) if (*q != '-') c_cbs[n++] = *q;
+			c_cbs[n] = 0;
+		}
+		if (strstr(line, " alloc=default")) c_alloc = AL_DEFAULT;
+		else if (strstr(line, " alloc=pool")) c_alloc = AL_POOL;
+		const char *ow = strstr(line, " onwake=");
+		if (ow) {
+			const char *q = ow + 8;
+			while (*q && *q != ' ' && c_nonwake < MAXONWAKE) {
+				char *e1; long n = strtol(q, &e1, 10);
+				if (*e1 != ':') break;
+				char *e2; long k = strtol(e1 + 1, &e2, 10);
+				if (e2 == e1 + 1) break;
+				if (k >= 0 && k < MAXCONN) {
+					c_onwake[c_nonwake].nth = (int)n; c_onwake[c_nonwake].conn = (int)k; c_onwake[c_nonwake].fired = 0;
+					c_nonwake++;
+				}
+				q = e2;
+				if (*q == ',') q++; else break;
+			}
+		}
+		if (strcmp(op, "vs") == 0) {
+			c_is_vs = 1;
+			v_nh = (int)kv(line, "nh", 1); if (v_nh < 0) v_nh = 0; if (v_nh > VS_MAXT - 3) v_nh = VS_MAXT - 3;
+			v_bytes = (int)kv(line, "bytes", 3); if (v_bytes < 0) v_bytes = 0; if (v_bytes > 4096) v_bytes = 4096;
+			v_gate = (int)kv(line, "gate", 1);
+			v_budget = kv(line, "budget", 20000);
+		}
 		if (strstr(line, " be=select")) c_be = MUGGLE_EVLOOP_TYPE_SELECT;
 		else if (strstr(line, " be=poll")) c_be = MUGGLE_EVLOOP_TYPE_POLL;
 		else c_be = MUGGLE_EVLOOP_TYPE_EPOLL;
@@ -836,6 +1223,8 @@ static void case_line(char *line)
 		else if (strcmp(op, "waitstall") == 0) s->op = S_WAITSTALL;
 		else if (strcmp(op, "waiteof") == 0) s->op = S_WAITEOF;
 		else if (strcmp(op, "creset") == 0) s->op = S_CRESET;
+		else if (strcmp(op, "waithand") == 0) s->op = S_WAITHAND;
+		else if (strcmp(op, "quiet") == 0) s->op = S_QUIET;
 		else if (strcmp(op, "prehand") == 0 || strcmp(op, "burst") == 0 || strcmp(op, "burstmt") == 0) {
 			s->op = strcmp(op, "prehand") == 0 ? S_PREHAND : strcmp(op, "burst") == 0 ? S_BURST : S_BURSTMT;
 			char *p = line + strlen(op);
@@ -857,15 +1246,15 @@ static void case_line(char *line)
 				s->ch[s->nch++] = (int)strtol(p, &p, 10);
 			}
 		} else return;
-		if ((s->op == S_CONN || s->op == S_HAND || s->op == S_SEND || s->op == S_CCLOSE || s->op == S_AWAIT || s->op == S_WAITEOF || s->op == S_CRESET) && (a < 0 || a >= MAXCONN)) return;
+		if ((s->op == S_CONN || s->op == S_HAND || s->op == S_SEND || s->op == S_CCLOSE || s->op == S_AWAIT || s->op == S_WAITEOF || s->op == S_CRESET || s->op == S_WAITHAND) && (a < 0 || a >= MAXCONN)) return;
 		if ((s->op == S_WREL || s->op == S_WSHUT) && (a < 0 || a >= MAXW)) return;
 		c_nstep++;
 	}
 }
 static void case_end(void)
 {
-	alarm(25);
-	if (c_is_pipe) run_pipe_case(); else run_socket_case();
+	alarm(600);
+	if (c_is_pipe) run_pipe_case(); else if (c_is_vs) run_vs_case(); else run_socket_case();
 	alarm(0);
 }
 
